@@ -539,6 +539,9 @@ class C05(Prop):
                         ["filter", 0, pk, [], ["scalar", [H(1.0)]], None], ["filter", 0, pk, [], ["list", [H(1.0)]], None],
                         ["filter", 0, pk, dup, ["list", [H(0.0), H(1.0), H(0.5), H(1.0)]], "x"],
                         ["filter", 0, pk, req, ["list", [H(0.5)] * (n - 1)], None], ["filter", 0, pk, req, ["series_perm", [H(0.5)] * n], None],
+                        # a palindromic request: the reversed Series is identically labelled and is compared position by position
+                        ["filter", 0, pk, [lab[1], lab[4], lab[1]], ["series_perm", [H(0.0), H(1.0), H(1.0)]], None],
+                        ["filter", 0, pk, req, ["tuple", [H(0.5)]], None], ["filter", 0, pk, req, ["list", [H(0.5)]], None],
                         ["rate", 0, pk, req, ["scalar", [H(0.0)]], None], ["rate", 0, pk, req, ["scalar", [H(1000.0)]], None],
                         ["rate", 0, pk, req, ["list", [H(x) for x in (0.0, 0.1, 1.0, 5.0, 250.0, 300.0)]], None]]
             bad = 1000 if crn else 101
@@ -639,6 +642,8 @@ class C05(Prop):
             if kind in ("filter", "rate"):
                 req = op[3]
                 pk = op[4][0]
+                if kind == "rate" and pk == "tuple":
+                    pk = "array"          # rate_to_probability returns an ndarray whatever sequence it was given
                 ps = _fr(o["phx"])
                 e = max([0] + [p.denominator.bit_length() - 1 for p in ps])
                 shift = max(0, e - 53)
@@ -647,7 +652,11 @@ class C05(Prop):
                 if pk in ("scalar", "array0"):
                     tok = f"s:{ns[0]}"
                 elif pk in ("series", "series_perm"):
+                    if pk == "series_perm":
+                        ns = ns[::-1]       # the Series carries the values in the (reversed) order of its index
                     tok = f"x:{','.join(map(str, _prob_index(pk, req))) or '-'}:{','.join(ns) or '-'}"
+                elif pk == "tuple":
+                    tok = f"t:{','.join(ns) or '-'}"
                 else:
                     tok = f"l:{','.join(ns) or '-'}"
                 L.append(f"filter {head} {shift} {','.join(map(str, req)) or '-'} {tok}")
@@ -717,6 +726,9 @@ class C05(Prop):
             else:
                 near = self._near(op, o)
                 bad = [i for i, (a, b) in enumerate(zip(o["picks"], m)) if a != b and not near[i]]
+                want_idx = list(range(len(op[1]))) if kind == "rchoice" else op[2]
+                if o["idx"] != want_idx:
+                    dis.append(f"op #{n} {str(op)[:160]}: result indexed by {o['idx']}, request {want_idx}")
                 if bad or len(m) != len(o["picks"]):
                     dis.append(f"op #{n} {str(op)[:160]}: picks impl {o['picks']}, model {m} (differ at {bad})")
         return dis
@@ -739,6 +751,8 @@ class C05(Prop):
             tag = f"op #{n} {str(op)[:200]}"
             if kind in ("filter", "rate"):
                 _, si, popkind, req, (pkind, toks), ak = op
+                if kind == "rate" and pkind == "tuple":
+                    pkind = "array"
                 nreq = len(req)
                 valid_sims = all((s in known) if env["crn"] else (0 <= s < size) for s in req)
                 if nreq == 0:
@@ -752,8 +766,8 @@ class C05(Prop):
                         fail("unknown-simulant-accepted", f"{tag}: kept {o['kept']}")
                     continue
                 m = len(toks)
-                ok_arg = pkind in ("scalar", "array0") or (pkind == "series_perm" and nreq <= 1) or \
-                    (pkind not in ("series_perm",) and m == nreq)
+                ok_arg = pkind in ("scalar", "array0") or (pkind == "series_perm" and m == nreq and req == req[::-1]) or \
+                    (pkind not in ("series_perm",) and m == nreq) or (pkind == "tuple" and m == 1)
                 if not ok_arg:
                     continue            # malformed argument: outside the property (the model pins today's refusal)
                 if o["r"] != "ok":
@@ -763,8 +777,10 @@ class C05(Prop):
                     continue
                 ds = [float.fromhex(h) for h in o["dhx"]]
                 ps = [float.fromhex(h) for h in o["phx"]]
-                if pkind in ("scalar", "array0"):
+                if pkind in ("scalar", "array0") or (pkind == "tuple" and m == 1):
                     ps = ps * nreq
+                if pkind == "series_perm":
+                    ps = ps[::-1]           # a palindromic request: the reversed Series is identically labelled
                 if o["type"] != o["intype"]:
                     fail("filter-type", f"{tag}: population {o['intype']}, result {o['type']}")
                 want_rows = [i for i in range(nreq) if ds[i] < ps[i]]
@@ -787,7 +803,7 @@ class C05(Prop):
                     fail("filter-columns", f"{tag}: result has {o['ncols']} columns")
                 if kind == "rate":
                     rs = [float.fromhex(h) for h in o["vhx"]]
-                    if pkind in ("scalar", "array0"):
+                    if pkind in ("scalar", "array0") or (pkind == "tuple" and m == 1):
                         rs = rs * nreq
                     for i in range(nreq):
                         pe = 1.0 - math.exp(-min(rs[i], 250.0))
